@@ -27,6 +27,16 @@ from spec import assoc_e as spec
 
 silence_loggers()
 
+
+def _rng(xs, lo, hi):
+    """all(lo <= x <= hi for x in xs) with early exit (CrossHair's all() does not short-circuit)"""
+    for x in xs:
+        if x < lo:
+            return False
+        if x > hi:
+            return False
+    return True
+
 IDS = (1, 3, 5)
 N_CX = tier(2, 3)
 
@@ -103,7 +113,7 @@ REQ_AB = (spec.CT_STORAGE, spec.UPS_PUSH)
 )
 def select_abstract_role(abs_idx: List[int], scu: List[bool], scp: List[bool], cid_sel: int) -> bool:
     """
-    pre: len(abs_idx) <= N_CX and all(0 <= a <= 4 for a in abs_idx)
+    pre: len(abs_idx) <= N_CX and _rng(abs_idx, 0, 4)
     pre: len(scu) == len(abs_idx) and len(scp) == len(abs_idx)
     pre: -1 <= cid_sel <= len(abs_idx)
     pre: cid_sel == -1 or shard("ab", 0) == 0
@@ -141,7 +151,7 @@ def select_abstract_role(abs_idx: List[int], scu: List[bool], scp: List[bool], c
 )
 def select_transfer(ts_idx: List[int], scu: List[bool], allow: bool) -> bool:
     """
-    pre: len(ts_idx) <= N_CX and all(0 <= t <= 4 for t in ts_idx)
+    pre: len(ts_idx) <= N_CX and _rng(ts_idx, 0, 4)
     pre: len(scu) == len(ts_idx)
     pre: _first_is(ts_idx, shard("t0", -1))
     post: _ == True
@@ -245,8 +255,8 @@ def _store_rsp():
 )
 def store_request(ab_idx: List[int], ts_idx: List[int], scu: List[bool]) -> bool:
     """
-    pre: len(ab_idx) <= 2 and all(0 <= a <= STORE_AB_MAX for a in ab_idx)
-    pre: len(ts_idx) == len(ab_idx) and all(0 <= t <= 4 for t in ts_idx)
+    pre: len(ab_idx) <= 2 and _rng(ab_idx, 0, STORE_AB_MAX)
+    pre: len(ts_idx) == len(ab_idx) and _rng(ts_idx, 0, 4)
     pre: len(scu) == len(ab_idx)
     post: _ == True
     """
@@ -376,8 +386,8 @@ def _invoke(assoc, op, ds):
 )
 def scu_request(ab_idx: List[int], ts_idx: List[int], scu: List[bool], scp: List[bool]) -> bool:
     """
-    pre: len(ab_idx) <= 2 and all(0 <= a <= OP_AB_MAX for a in ab_idx)
-    pre: len(ts_idx) == len(ab_idx) and all(0 <= t <= 4 for t in ts_idx)
+    pre: len(ab_idx) <= 2 and _rng(ab_idx, 0, OP_AB_MAX)
+    pre: len(ts_idx) == len(ab_idx) and _rng(ts_idx, 0, 4)
     pre: len(scu) == len(ab_idx) and len(scp) == len(ab_idx)
     post: _ == True
     """
